@@ -311,12 +311,12 @@ theorem step_unlink (id : String) (c : Core) (app k1 k2 : String) : Step id c (u
   exact ⟨j, hj, b1.trans a1, b2.trans a2, b3.trans a3, b4.trans a4⟩
 
 theorem step_dealloc (id : String) (c : Core) (app key other : String) (r : CItem) (chain : List String) (fq : CQueue → CQueue) :
-    Step id c (updQueues (updApp c app (deallocApp key other r)) chain fq) := by
-  refine step_updApps app (deallocApp key other r) rfl rfl ?_
+    Step id c (updQueues (updApp c app (deallocAppRun key other r)) chain fq) := by
+  refine step_updApps app (deallocAppRun key other r) rfl rfl ?_
   intro x _ _
-  refine AppStep.of_sig id c rfl rfl ?_
+  refine AppStep.of_sig id c (runAgain_id _) (runAgain_live _) ?_
   intro j' hj'
-  rw [deallocApp_items] at hj'
+  rw [deallocAppRun_items] at hj'
   exact sig_deallocItems hj'
 
 /-! ### one round of the loop -/
